@@ -23,6 +23,9 @@ func load(r *rt.Runtime) (rt.Value, func()) {
 	r.SetEnv(pkg, "mininteger", rt.IntValue(math.MinInt64))
 	r.SetEnv(pkg, "pi", rt.FloatValue(math.Pi))
 
+	// Each runtime has its own random generator (randomly seeded).
+	rng := rand.New(rand.NewSource(rand.Int63()))
+
 	rt.SolemnlyDeclareCompliance(
 		rt.ComplyCpuSafe|rt.ComplyMemSafe|rt.ComplyTimeSafe|rt.ComplyIoSafe,
 
@@ -41,8 +44,8 @@ func load(r *rt.Runtime) (rt.Value, func()) {
 		r.SetEnvGoFunc(pkg, "min", min, 1, true),
 		r.SetEnvGoFunc(pkg, "modf", modf, 1, false),
 		r.SetEnvGoFunc(pkg, "rad", rad, 1, false),
-		r.SetEnvGoFunc(pkg, "random", random, 2, false),
-		r.SetEnvGoFunc(pkg, "randomseed", randomseed, 2, false),
+		r.SetEnvGoFunc(pkg, "random", random(rng), 2, false),
+		r.SetEnvGoFunc(pkg, "randomseed", randomseed(rng), 2, false),
 		r.SetEnvGoFunc(pkg, "sin", sin, 1, false),
 		r.SetEnvGoFunc(pkg, "sqrt", sqrt, 1, false),
 		r.SetEnvGoFunc(pkg, "tan", tan, 1, false),
@@ -307,8 +310,15 @@ func rad(t *rt.Thread, c *rt.GoCont) (rt.Cont, error) {
 	return c.PushingNext1(t.Runtime, y), nil
 }
 
-// TODO: have a per runtime random generator
-func random(t *rt.Thread, c *rt.GoCont) (rt.Cont, error) {
+// random returns the math.random function using the given (per runtime)
+// random generator.
+func random(rand *rand.Rand) rt.GoFunctionFunc {
+	return func(t *rt.Thread, c *rt.GoCont) (rt.Cont, error) {
+		return randomWith(rand, t, c)
+	}
+}
+
+func randomWith(rand *rand.Rand, t *rt.Thread, c *rt.GoCont) (rt.Cont, error) {
 	var (
 		err error
 		m   int64 = 1
@@ -352,7 +362,15 @@ func random(t *rt.Thread, c *rt.GoCont) (rt.Cont, error) {
 	return c.PushingNext1(t.Runtime, rt.IntValue(m+r)), nil
 }
 
-func randomseed(t *rt.Thread, c *rt.GoCont) (rt.Cont, error) {
+// randomseed returns the math.randomseed function for the given (per runtime)
+// random generator.
+func randomseed(rand *rand.Rand) rt.GoFunctionFunc {
+	return func(t *rt.Thread, c *rt.GoCont) (rt.Cont, error) {
+		return randomseedWith(rand, t, c)
+	}
+}
+
+func randomseedWith(rand *rand.Rand, t *rt.Thread, c *rt.GoCont) (rt.Cont, error) {
 	var (
 		seed int64
 		err  error
